@@ -297,6 +297,15 @@ pub fn mode_faults(a: &Args) -> i32 {
         let rec = recipe(&mut rng, n, np);
         let ids = (n + 2) as u32;
         let op = gen_fault_op(&mut rng, kind, n, ids);
+        let op = if a.u("noleak", 0) == 1 {
+            match op {
+                Op::IterMut { n, writes, touch, via_ref, .. } => Op::IterMut { n, writes, touch, leak: false, via_ref },
+                Op::Drain { front, back, .. } => Op::Drain { front, back, leak: false },
+                o => o,
+            }
+        } else {
+            op
+        };
         cn.episodes += 1;
         let counts = match crate::dispatch!(kind, hasher.as_str(), exec_count, &rec, &op) {
             Some(c) => c,
